@@ -504,7 +504,7 @@ func (x *Execution) RenderLog() []string {
 	if x.Log == nil && len(x.log) > 0 {
 		x.Log = make([]string, len(x.log))
 		for i, e := range x.log {
-			x.Log[i] = fmt.Sprintf("[T%d t=%d] ", e.tid, e.clock) + fmt.Sprintf(e.format, e.args...)
+			x.Log[i] = fmt.Sprintf("[T%d t=%d] ", e.tid, e.clock) + addrRE.ReplaceAllString(fmt.Sprintf(e.format, e.args...), "0x…") // heap addresses differ from run to run
 		}
 	}
 	return x.Log
